@@ -113,8 +113,8 @@ _e("crate::wrap_algorithms::WrapAlgorithm::wrap", "call:Result::unwrap",
    "OverflowError is unreachable for usize-valued widths and penalties (MAG)")
 
 LN = "crate::wrap_algorithms::optimal_fit::LineNumbers::get"
-_e(LN, "assert:Overflow:Add", "$2 ; 1", ["A-smawk"], "i <= fragments.len() <= isize::MAX at every call site")
-_e(LN, "assert:BoundsCheck", "v:usize ; []::len($3)", ["A-smawk"],
+_e(LN, "assert:Overflow:Add", "$2 ; 1", ["A-smawk", "C03.R2"], "i <= fragments.len() <= isize::MAX at every call site (the closure asks for L(i): C03.R2)")
+_e(LN, "assert:BoundsCheck", "v:usize ; []::len($3)", ["A-smawk", "C03.R2"],
    "pos = cache length <= i and minima.len() > i (smawk's contract for the closure; minima complete afterwards)")
 _e(LN, "assert:Overflow:Add", "1 ; crate::wrap_algorithms::optimal_fit::LineNumbers::get($1,$3[v:usize].0,$3)",
    ["A-smawk"], "line numbers are at most the number of fragments")
